@@ -10,7 +10,7 @@ P1 the out-of-range objno is rejected before the builder sizes the objectives,
 F1 option plumbing; F2 the objno echoed in the .sol file; P2 file order.
 """
 import itertools, re
-from ..cfg import Facts, kids, strip, walk, cv, render, short_loc, call_args, TRANSPARENT
+from ..cfg import eval_cases, norm_fact_nodes, reach_calls, expand_locals, norm_facts, xrender, Facts, kids, strip, walk, cv, render, short_loc, call_args, TRANSPARENT
 from ..facts import export_many, AnalysisBroken
 from .. import units
 
@@ -137,7 +137,7 @@ def run(rep, ctx):
           r"mp::BasicSolver::(objno_specified|is_objno_specified|multiobj|objno_used|GetObjNo|SetObjNo|notify_obj_added|notify_start_opts|notify_end_opts)",
           r"mp::SolutionAdapter::.*", r"mp::WriteSolFile", r"mp::SolutionWriterImpl::Handle.*Solution",
           r"mp::ProblemFlattener::ConvertStandardItems"]
-    jobs = [dict(unit=U, fn=fn, repo=repo),
+    jobs = [dict(unit=U, fn=fn, repo=repo, closure=1, closure_roots=r"SolverNLHandlerImpl::OnHeader$"),
             dict(unit="src/solver.cc", fn=fn, repo=repo),
             dict(unit="solvers/visitor/visitor-modelapi-connect.cc",
                  fn=[r"mp::ProblemFlattener::ConvertStandardItems"], repo=repo)]
@@ -170,8 +170,7 @@ def run(rep, ctx):
     g1.check(idx is not None and idx["k"] == "DeclRefExpr", "O|resulting-index", short_loc(c.get("l")),
              "OnObj receives resulting_obj_index(%s)" % (render(idx) if idx else "?"))
     guarded = False
-    for cid, pol in rd.cfg.facts_at(c):
-        g = strip(rd.nodes[cid])
+    for g, pol in norm_fact_nodes(rd, c, all_locals=False):
         if g["k"] == "CXXMemberCallExpr" and g.get("callee", "").endswith("::NeedObj") and pol is True and \
                 idx is not None and strip(call_args(g)[0]).get("declId") == idx.get("declId"):
             guarded = True
@@ -189,7 +188,7 @@ def run(rep, ctx):
     ok = len(on) == 1 and len(sk) == 1 and \
         strip(call_args(on[0])[0]).get("declId") == strip(call_args(sk[0])[0]).get("declId")
     if ok:
-        ok = any(strip(rl.nodes[cid])["i"] == sk[0]["i"] and pol is False for cid, pol in rl.cfg.facts_at(on[0]))
+        ok = any(g_["k"] == "CXXMemberCallExpr" and g_.get("i") == sk[0]["i"] and pol is False for g_, pol in norm_fact_nodes(rl, on[0], all_locals=False))
     g1.check(ok, "G|keep-branch", short_loc(rl.loc),
              "lh.OnLinearExpr(index, n) is reached only when lh.SkipExpr(index) of the same index is false")
     rls = [x for x in rl.walk() if x["k"] == "CXXMemberCallExpr" and x.get("callee", "").endswith("NLReader::ReadLinearExpr")]
@@ -254,19 +253,41 @@ def run(rep, ctx):
                   "Base::OnHeader sizes the objectives", floor=3)
     oh = one("mp::internal::SolverNLHandlerImpl::OnHeader")
     base = [x for x in oh.walk() if x["k"] == "CXXMemberCallExpr" and x.get("callee", "").endswith("NLProblemBuilder::OnHeader")]
-    thr = [x for x in oh.walk() if x["k"] == "CXXThrowExpr" and "objno" in render(x)]
     if len(base) != 1:
         raise AnalysisBroken("Base::OnHeader call not found in SolverNLHandlerImpl::OnHeader")
+    # the rejection: a throw mentioning objno, in OnHeader itself or in a helper it calls before Base::OnHeader,
+    # executed exactly under  objno > h.num_objs && is_objno_specified()
+    thr = []        # (anchor in OnHeader, throw node, owner function)
+    for x in oh.walk():
+        if x["k"] == "CXXThrowExpr" and "objno" in render(x):
+            thr.append((x, x, oh))
+    for c_ in oh.walk():
+        if c_["k"] in ("CXXMemberCallExpr", "CallExpr"):
+            g_ = getattr(F, "_by_id", {}).get(c_.get("calleeId"))
+            if g_ is not None and g_ is not oh and g_.cfg is not None and g_.qn.startswith("mp::internal::SolverNLHandlerImpl::"):
+                for x in g_.walk():
+                    if x["k"] == "CXXThrowExpr" and "objno" in render(x):
+                        thr.append((c_, x, g_))
     rej = False
-    for cid, pol in oh.cfg.facts_at(base[0]):
-        t = render(oh.nodes[cid])
-        if pol is False and "objno > h.num_objs" in t and "is_objno_specified()" in t:
+    for anchor, t_, owner in thr:
+        fa = norm_facts(owner, t_, canon=True, all_locals=True)
+        big = any(pol is False and t.endswith("<solver_.objno_specified()") and "num_objs" in t for t, pol in fa) or \
+            any(pol is True and t.startswith("h.num_objs<") and "objno_specified()" in t for t, pol in fa)
+        spec = any(pol is True and t.endswith("is_objno_specified()") for t, pol in fa)
+        only = all(("num_objs" in t or "is_objno_specified()" in t) for t, pol in fa)
+        if owner is oh:
+            ordered = any(pol is False and "num_objs" in render(oh.nodes[cid]) and "is_objno_specified()" in render(oh.nodes[cid])
+                          for cid, pol in oh.cfg.facts_at(base[0])) or \
+                (not oh.cfg.before(base[0], t_) and oh.cfg.path_avoiding(None, [base[0]["i"]], [oh.cfg.position(t_) and t_["i"]], from_entry=True) is not None)
+        else:
+            ordered = oh.cfg.dominates(anchor, base[0])
+        if big and spec and only and ordered:
             rej = True
     p1.check(bool(thr) and rej, "reject-before-sizing", short_loc(base[0].get("l")),
              "Base::OnHeader is reached only if !(objno > h.num_objs && is_objno_specified()); otherwise "
              "InvalidOptionValue(\"objno\") is thrown")
     ah = [x for x in oh.walk() if x["k"] == "CXXOperatorCallExpr" and x.get("op") == "()" and "after_header_" in render(x)]
-    rdno = [x for x in oh.walk() if x["k"] == "CXXMemberCallExpr" and x.get("callee", "").endswith("::objno_specified")]
+    rdno = [a_ for a_, c_, r_, o_ in reach_calls(F, oh, lambda x: x["k"] == "CXXMemberCallExpr" and x.get("callee", "").endswith("::objno_specified"), depth=1)]
     p1.check(bool(ah) and bool(rdno) and all(not oh.cfg.before(r_, ah[0]) for r_ in rdno), "options-before-objno",
              short_loc(oh.loc), "after_header_() (option parsing) precedes the read of objno")
     nob = one(NPB + "::OnHeader")
@@ -299,9 +320,24 @@ def run(rep, ctx):
         any(pol is False and render(so.nodes[cid]) == "value < 0" for cid, pol in so.cfg.facts_at(st[0]))
     f1.check(okso, "SetObjNo-stores-nonnegative", short_loc(so.loc), "SetObjNo stores the value after rejecting value < 0")
     ou = one("mp::BasicSolver::objno_used")
-    got = ret(ou) or ""
-    f1.check("obj_added_ ? objno_specified() : 0" in got, "objno_used", short_loc(ou.loc),
-             "objno_used() = objno_specified() once an objective was added, else 0: `%s`" % got)
+    def ou_atom(t, n):
+        return {"opts_read_": "O", "obj_added_": "A"}.get(t)
+
+    def ou_ret(e, value_of):
+        e = strip(e) if e is not None else None
+        while e is not None and e["k"] == "ConditionalOperator":
+            c_, a_, b_ = kids(e)
+            e = strip(a_ if value_of(c_) else b_)
+        if e is None:
+            return "?"
+        if cv(e) == 0:
+            return "zero"
+        return "spec" if render(e).replace("this->", "").replace(" ", "") == "objno_specified()" else "?" + render(e)
+    tab = eval_cases(ou, ["O", "A"], ou_atom, ou_ret)
+    want_ou = {(False, False): "spec", (False, True): "spec", (True, False): "zero", (True, True): "spec"}
+    f1.check(tab == want_ou, "objno_used", short_loc(ou.loc),
+             "objno_used() = 0 once the options were read and no objective was added, objno_specified() otherwise (4 cases)",
+             "objno_used() by (options read, objective added): %s" % tab)
 
     # ---- F2 -------------------------------------------------------------------------
     f2 = rep.rule("C12.F2", "FLOW", "the .sol objno line echoes objno_used() - 1", floor=4)
